@@ -20,11 +20,11 @@ type convModel struct {
 	T       types.Type // element type T
 	// perm[j] = (word k, half h) for value byte j (0 = most significant);
 	// h = 0 high byte of the register, 1 low byte
-	perm   [4][2]int
+	perm [4][2]int
 	// bits[b] = register bit (16*word + position, position 0 = least
 	// significant) that value bit b (0 = least significant) travels to/from
 	bits   [32]int
-	probed bool // the model was obtained by evaluating the function on single-bit inputs
+	probed bool   // the model was obtained by evaluating the function on single-bit inputs
 	conv   string // "id", "int32", "uint32", "frombits", "bits"
 	stride int64  // registers per value
 	lenOK  bool   // output length is len(in)/2 resp. len(in)*2
@@ -129,9 +129,11 @@ func c19ParseConvDepth(c *kit.Ctx, f *kit.Func, decoder bool, T types.Type, dept
 	cm := c19ParseConvSyntax(c, f, decoder, T, depth)
 	if cm.err != "" && cm.bad == "" {
 		// not one of the recognised spellings: evaluate it on single-bit inputs
-		if pm := c19ProbeConv(c, f, decoder, T); pm != nil {
+		pm, why := c19ProbeConv(c, f, decoder, T)
+		if pm != nil {
 			return pm
 		}
+		cm.err += "; not evaluated on single bits either: " + why
 	}
 	return cm
 }
